@@ -529,6 +529,59 @@ func c05Oracle(sp *c05Spec, out *c05Out) *c05Verdict {
 		}
 	}
 
+	// ---- a stop that never completed (structural witness recorded by the child): the stop
+	// routine and every item of the module had returned, the module's status was already
+	// offline, but the stopper sat in a call that only the harness could unblock
+	for i := range out.Events {
+		e := &out.Events[i]
+		if e.Kind != "stuck" {
+			continue
+		}
+		m := e.Who
+		var st *oStop
+		for _, x := range stops[m] {
+			if x.ctrlset < e.Seq {
+				st = x
+			}
+		}
+		if st == nil || (st.fnBegin != 0 && st.fnEnd == 0) {
+			continue
+		}
+		open := false
+		for _, it := range order {
+			if it.mod == m && !isProbe(it) && it.begin < e.Seq && (it.end == 0 || it.end > e.Seq) {
+				open = true
+			}
+		}
+		if !open {
+			add("C05:P3:stop-never-completed:stopper-blocked-in-failure-update-function", fmt.Sprintf("stop of %s: its stop routine and all its work items had returned, but the stop did not complete (no dependency began stopping, Shutdown did not return): the stopper was blocked in %s, which only the harness could release", m, e.Op),
+				witness(st, nil, map[string]any{"stuck_seq": e.Seq}))
+		}
+	}
+
+	// ---- a task that was cleared for execution before its module's stop began while no
+	// task timeslot could be handed out (slotstarve class: all microtask slots are held until
+	// the stop routine has returned) must not execute once the stop has begun
+	if sp.Class == "slotstarve" {
+		for i := range out.Events {
+			e := &out.Events[i]
+			if e.Kind != "hook" || e.Op != "modules.task.cleared" {
+				continue
+			}
+			it := items[e.Who]
+			if it == nil {
+				continue
+			}
+			for _, st := range stops[it.mod] {
+				if e.Seq < st.ctrlset && it.begin > st.ctrlset {
+					add("C05:P4:cleared-task-executed-after-stop", fmt.Sprintf("task %s of %s was cleared for execution before the module's stop began, could not get a task timeslot until the stop routine had returned, and was executed afterwards", it.who, it.mod),
+						witness(st, it, map[string]any{"cleared_seq": e.Seq}))
+					break
+				}
+			}
+		}
+	}
+
 	// ---- P4: work submitted to a stopped module
 	for _, it := range order {
 		if !isProbe(it) {
